@@ -56,6 +56,11 @@ func (k msgServer) SubmitValue(ctx context.Context, msg *types.MsgSubmitValue) (
 	}
 
 	reportingPower := reporterStake.Quo(layertypes.PowerReduction).Uint64()
+	// a report must carry at least one unit of power whatever the MinStakeAmount parameter is set to:
+	// aggregation and reward allocation divide by the round's total power in EndBlock
+	if reportingPower == 0 {
+		return nil, errorsmod.Wrapf(types.ErrNotEnoughStake, "reporter has %s, less than one whole token", reporterStake)
+	}
 
 	query, err := k.keeper.CurrentQuery(ctx, queryId)
 	if err != nil {
